@@ -31,7 +31,7 @@ func cliExit(r *Run) {
 		return
 	}
 	par1Set := t.Bool(1, 2, "par1")
-	w := GenWorld(r, GenOpts{Par1: par1Set, MaxFiles: 4, MaxTotal: 4 << 10, MaxR: 4, SmallOnly: true, RandomOnly: true, SliceSizes: []int{4, 8, 16, 64, 100}})
+	w := GenWorld(r, GenOpts{Par1: par1Set, MaxFiles: 4, MaxTotal: 4 << 10, MaxR: 6, SmallOnly: true, RandomOnly: true, SliceSizes: []int{4, 8, 16, 64, 100}})
 	if par1Set {
 		r.Probe("par1")
 	} else {
@@ -210,7 +210,7 @@ func cliExit(r *Run) {
 
 	// ---- state ----
 	states := []string{"intact", "repairable", "unrepairable", "no-parity", "damaged-index", "missing-index", "recovery-subset-lost", "damaged-recovery-file"}
-	state := states[t.Pick([]int{2, 5, 3, 2, 1, 1, 2, 1}, "state")]
+	state := states[t.Pick([]int{2, 5, 3, 2, 1, 1, 3, 1}, "state")]
 	if longGap && t.Bool(2, 3, "long-gap-state") {
 		state = "recovery-subset-lost"
 	}
@@ -339,6 +339,19 @@ func cliExit(r *Run) {
 		// some (not all) recovery files are gone - e.g. the first one, which
 		// leaves a gap in the numbering - with the data intact or damaged
 		lost := 0
+		if len(recPaths) >= 3 && t.Bool(1, 3, "interior-gap") {
+			// exactly one recovery file that is neither the first nor the
+			// last is gone: the block numbering has a gap in the middle
+			i := 1 + t.Draw(len(recPaths)-2, "which-interior")
+			w.Disk.Remove(recPaths[i])
+			r.Logf("state: recovery file %s deleted (interior gap)", filepath.Base(recPaths[i]))
+			r.Probe("recovery-gap-in-the-middle")
+			if t.Bool(2, 3, "and-damage") {
+				garble(t.Draw(len(w.Files), "which"))
+				state = "recovery-subset-lost+damaged"
+			}
+			break
+		}
 		for i, p := range recPaths {
 			if lost < len(recPaths)-1 && (i == 0 && t.Bool(1, 2, "lose-first") || t.Bool(1, 3, "lose")) {
 				w.Disk.Remove(p)
@@ -346,7 +359,7 @@ func cliExit(r *Run) {
 				r.Logf("state: recovery file %s deleted", filepath.Base(p))
 			}
 		}
-		if t.Bool(1, 3, "and-damage") {
+		if t.Bool(1, 2, "and-damage") {
 			garble(t.Draw(len(w.Files), "which"))
 			state = "recovery-subset-lost+damaged"
 		}
